@@ -32,7 +32,7 @@ let why (p : X_c01.prog) : string option =
     | EIf (c, a, b) -> e c; bl a; bl b
     | EIfOnly (c, a) -> e c; bl a
     | ELam _ -> raise (Why "lambda or inner function")
-    | ECall (_, _, _, args) | EExt (_, args) | ERecord (_, _, args) -> List.iter e args
+    | ECall (_, _, _, args) | EExt (_, args) | ERecord (_, _, _, args) -> List.iter e args
     | EPipeVar (a, _, _) -> e a
     | EPipeCall (a, _, args, _) | EPipeExt (a, _, args, _) -> e a; List.iter e args
     | ETuple es -> if List.length es <> 2 then raise (Why "tuple with more than two components"); List.iter e es
